@@ -5,7 +5,8 @@
    escape timer (the real-time race between the timer body and the read loop is outside
    the model: partial, see DESIGN.md section 9). *)
 From Vx Require Import base.Prelude model.ParserTypes gen.GenParser model.Parser model.Vt500Spec
-  model.ParserCheck proofs.ParserTable proofs.ParserConform proofs.ParserLife.
+  model.ParserCheck model.ParserOwnTypes gen.GenOwn model.ParserOwn
+  proofs.ParserTable proofs.ParserConform proofs.ParserLife proofs.ParserOwnProofs.
 
 (* For every input, every way it is cut by silences, ending at any point (the stream given
    IS the stream up to the point where the reader ended or failed): the parser delivers
@@ -54,6 +55,26 @@ Proof.
   pose proof (feed_plain rs pinit inv_init) as H. destruct (feed pinit rs) as [[p' o] go]. exact (proj1 H).
 Qed.
 Print Assumptions C08_inv_reachable.
+
+(* A sequence already delivered is never modified by later parsing until the consumer hands it
+   back.  Buffers are abstract ids held by the parser, the consumer or a sync.Pool; the
+   per-function lists of ownership actions (alias into an outgoing sequence, emit, re-point
+   the field to a fresh buffer / a pool buffer / a reslice of the same array, write) are
+   TRANSLATED from ansi/parser.go on every run (gen/GenOwn.v).  For every sequence of function
+   calls in any order, every choice sync.Pool.Get can make, and every moment at which the
+   consumer gives buffers back (including never): no write targets a buffer the consumer
+   holds. *)
+Theorem C08_no_write_after_handoff : forall es : list oevent, orun oinit es = true.
+Proof. exact (no_write_after_handoff own_all_ok). Qed.
+Print Assumptions C08_no_write_after_handoff.
+
+(* the discipline is needed: re-using the delivered array (p.oscData = p.oscData[:0] after the
+   emit) is rejected, and then a write does hit a buffer the consumer holds *)
+Example C08_reslice_after_emit_rejected :
+  handoff_ok [OAlias KOsc; OEmit; OReplace KOsc Reslice] = false /\
+  (let '(s1, _, _) := run_fn oinit [OAlias KOsc; OEmit; OReplace KOsc Reslice] [] in
+   write_safe s1 (OWrite KOsc)) = false.
+Proof. vm_compute. split; reflexivity. Qed.
 
 Example C08_example :
   parse_segments [[27; 93; 97; 27]; [92; 120]] = [IOsc [97]; IC0 27; IPrint [92; 120]; IEof].
